@@ -31,6 +31,8 @@ git -C /repo worktree remove --force $wt
 git -C /repo apply $sd/patch.diff || exit 2
 for p in "$@"; do
   ( cd /verif && ./check $p quick > $sd/check_$p.txt 2>&1; echo "exit=$?" >> $sd/check_$p.txt )
+  rm -rf $sd/replays_$p; [ -d /verif/replays/$p ] && mv /verif/replays/$p $sd/replays_$p
+  git -C /verif checkout -- evidence/$p.json 2>/dev/null
   echo "-- check $p:"; grep -E "VIOLATION|FAILED-OBLIGATION|ENGINE|property=|exit=" $sd/check_$p.txt | cut -c1-260 | tail -8
 done
 git -C /repo checkout -- .
